@@ -672,7 +672,16 @@ class CondSelect(Statement):
         # is taken, the statements after the selection are reachable
         returns_always = returns and default is not None
 
-        super().__init__(returns_always, return_paths)
+        super().__init__(
+            returns_always,
+            return_paths,
+            contains_break=any(
+                branch.contains_break() for branch in code_branches + code_default
+            ),
+            contains_continue=any(
+                branch.contains_continue() for branch in code_branches + code_default
+            ),
+        )
 
     def dump(self) -> IndentBlock:
         if self._default is not None:
